@@ -516,3 +516,154 @@ func checkStaleTriple(c *Ctx, rule string) {
 		})
 	}
 }
+
+// checkSourcePos: C01.source-pos. history.Sources indexes names with sourcePos
+// in Current / getHistoryLineChanges / Complete without a test: the class
+// invariant "names empty, or 0 <= sourcePos < len(names)" is what keeps those
+// indexes in range, and this rule checks the writers that maintain it.
+func checkSourcePos(c *Ctx) {
+	p, r := c.P, c.R
+	const rule = "C01.source-pos"
+	const tn = "history.Sources"
+	r.Rule(rule, "K2", "history.Sources.names is indexed with sourcePos without a test (Current, getHistoryLineChanges, Complete): every store to sourcePos is the constant 0, or Cycle's step — made only when names is non-empty, +1 wrapped to 0 when it reaches len(names), -1 wrapped to len(names)-1 when it goes below 0 — and every store that can shrink names (anything but an append to the loaded slice) is followed by sourcePos = 0 on every path to the exit", 4)
+	isLoad := func(v ssa.Value, fld string) bool { return isFieldLoad(stripConv(v), tn, fld) }
+	isLenNames := func(v ssa.Value) bool {
+		cl, ok := v.(*ssa.Call)
+		if !ok {
+			return false
+		}
+		b, isB := cl.Call.Value.(*ssa.Builtin)
+		return isB && b.Name() == "len" && isLoad(cl.Call.Args[0], "names")
+	}
+	isZeroStore := func(in ssa.Instruction) bool {
+		st, ok := isFieldStore(in, tn, "sourcePos")
+		if !ok {
+			return false
+		}
+		k, isK := constInt(st.Val)
+		return isK && k == 0
+	}
+	nStores := 0
+	for _, f := range p.RepoFuncs {
+		if len(f.Blocks) == 0 {
+			continue
+		}
+		var bf FactMap
+		eachInstr(f, func(in ssa.Instruction) {
+			// stores to sourcePos
+			if st, ok := isFieldStore(in, tn, "sourcePos"); ok {
+				if fa, ok := st.Addr.(*ssa.FieldAddr); ok {
+					if _, fresh := fa.X.(*ssa.Alloc); fresh {
+						return
+					}
+				}
+				nStores++
+				r.Fn(fnName(f))
+				key := fmt.Sprintf("%s:store(sourcePos)#%d", fnName(f), nStores)
+				if k, isK := constInt(st.Val); isK {
+					r.Check(k == 0, rule, key, p.IPos(in), "stores 0", "stores a non-zero constant to sourcePos: nothing says names is that long")
+					return
+				}
+				if bf == nil {
+					bf = blockFacts(f)
+				}
+				nonEmpty := false
+				for fc := range factsAt(bf, in) {
+					rel, ok := relOf(fc.Cond, fc.Val)
+					if !ok || !isLenNames(rel.X) {
+						continue
+					}
+					if k, isK := constInt(rel.Y); isK && ((rel.Op == token.NEQ && k == 0) || (rel.Op == token.GTR && k == 0) || (rel.Op == token.GEQ && k == 1)) {
+						nonEmpty = true
+					}
+				}
+				bo, isBo := st.Val.(*ssa.BinOp)
+				switch {
+				case isBo && isLenNames(bo.X) && bo.Op == token.SUB:
+					k, isK := constInt(bo.Y)
+					r.Check(isK && k == 1 && nonEmpty, rule, key, p.IPos(in), "stores len(names)-1 where names is known non-empty", "stores len(names)-k without knowing names non-empty (or k != 1)")
+				case isBo && isLoad(bo.X, "sourcePos") && (bo.Op == token.ADD || bo.Op == token.SUB):
+					k, isK := constInt(bo.Y)
+					if !isK || k != 1 || !nonEmpty {
+						r.Bad(rule, key, p.IPos(in), "steps sourcePos by something other than 1, or without knowing names non-empty: with no source the index leaves 0 and the next source added is looked up out of range")
+						return
+					}
+					// the wrap: a test of the stepped value against len(names) (for +1) or 0 (for -1) follows, whose wrapping branch stores the other end
+					wrapped := false
+					eachInstr(f, func(x ssa.Instruction) {
+						iff, ok := x.(*ssa.If)
+						if !ok || !instrDominates(in, x) {
+							return
+						}
+						rel, ok := relOf(iff.Cond, true)
+						if !ok || !isLoad(rel.X, "sourcePos") {
+							return
+						}
+						tb := iff.Block().Succs[0]
+						stores := func(pred func(ssa.Value) bool) bool {
+							for _, y := range tb.Instrs {
+								if s2, ok := isFieldStore(y, tn, "sourcePos"); ok && pred(s2.Val) {
+									return true
+								}
+							}
+							return false
+						}
+						if bo.Op == token.ADD && (rel.Op == token.EQL || rel.Op == token.GEQ) && isLenNames(rel.Y) && stores(func(v ssa.Value) bool { k, ok := constInt(v); return ok && k == 0 }) {
+							wrapped = true
+						}
+						if k0, isK0 := constInt(rel.Y); bo.Op == token.SUB && isK0 && k0 == 0 && rel.Op == token.LSS && stores(func(v ssa.Value) bool {
+							b2, ok := v.(*ssa.BinOp)
+							return ok && b2.Op == token.SUB && isLenNames(b2.X)
+						}) {
+							wrapped = true
+						}
+					})
+					r.Check(wrapped, rule, key, p.IPos(in), "stepped by one, names non-empty, wrapped at the end it can leave", "the stepped index is not wrapped back (== len(names) → 0, < 0 → len(names)-1): it leaves the range of names")
+				default:
+					r.Bad(rule, key, p.IPos(in), "stores a value to sourcePos that is neither 0, a wrapped step, nor len(names)-1")
+				}
+				return
+			}
+			// stores that can shrink names
+			if st, ok := isFieldStore(in, tn, "names"); ok {
+				if fa, ok := st.Addr.(*ssa.FieldAddr); ok {
+					if _, fresh := fa.X.(*ssa.Alloc); fresh {
+						return
+					}
+				}
+				grows := false
+				if cl, ok := st.Val.(*ssa.Call); ok {
+					if b, isB := cl.Call.Value.(*ssa.Builtin); isB && b.Name() == "append" && isLoad(cl.Call.Args[0], "names") {
+						grows = true
+					}
+				}
+				if grows {
+					return
+				}
+				r.Fn(fnName(f))
+				key := fmt.Sprintf("%s:store(names)@%d", fnName(f), callOrdinalAny(f, in))
+				w := pathAvoiding(f, in, func(x ssa.Instruction) bool { _, isRet := x.(*ssa.Return); return isRet }, isZeroStore)
+				r.Check(w == nil, rule, key, p.IPos(in), "names may shrink here; sourcePos = 0 follows on every path to the exit", "names may shrink here and a path reaches the exit without resetting sourcePos: the index of the active source stays past the end, and Current() panics once a source is added again")
+			}
+		})
+	}
+	if nStores == 0 {
+		r.Unk(rule, "stores(sourcePos)", "-", "no store to history.Sources.sourcePos found: anchor changed")
+	}
+}
+
+// callOrdinalAny: ordinal of any instruction among the instructions of f, by position.
+func callOrdinalAny(f *ssa.Function, target ssa.Instruction) int {
+	n := 0
+	for _, b := range f.Blocks {
+		for _, in := range b.Instrs {
+			if in == target {
+				return n
+			}
+			if _, ok := in.(*ssa.Store); ok {
+				n++
+			}
+		}
+	}
+	return -1
+}
